@@ -10,6 +10,9 @@ for name in sorted(os.listdir(sd)):
         continue
     d = os.path.join(sd, name)
     meta = json.load(open(os.path.join(d, "meta.json")))
+    if meta.get("void_since"):
+        print("==", name, "(void since %s: skipped)" % meta["void_since"])
+        continue
     prop = meta.get("property") or name.split("-")[0]
     checks = [prop] + [c for c in meta.get("caught_by", []) if c != prop]
     cmd = [sys.executable, os.path.join(VERIF, "tools", "seed_eval.py"), d, "--checks", ",".join(checks), "--property", prop, "--needs", meta.get("needs_to_manifest", ""), "--keep-as", name]
